@@ -800,3 +800,35 @@ Proof.
       apply val32_inj_len; [apply words_removelast; auto|apply words_n_words| |lia].
       apply Nat2Z.inj. rewrite length_removelast_Z, Hl', Hll by auto. lia.
 Qed.
+
+Theorem below_uniform bound v low : 0 < bound -> 0 <= v < bound ->
+  let bits := Z.log2 bound + 1 in
+  0 <= low < 2 ^ top_shift bits ->
+  exists ws,
+    (words ws /\ chunk_ok bits ws /\ cand bits ws = v /\ last ws 0 mod 2 ^ top_shift bits = low) /\
+    forall ws', words ws' -> chunk_ok bits ws' -> cand bits ws' = v ->
+                last ws' 0 mod 2 ^ top_shift bits = low -> ws' = ws.
+Proof.
+  intros Hb Hv bits Hlow. pose proof (Z.log2_nonneg bound). pose proof (Z.log2_spec bound Hb) as Hl.
+  apply cand_fibre; auto; [subst bits; lia|].
+  subst bits. rewrite Z.add_1_r. lia.
+Qed.
+
+(** gen_biguint on an explicitly split stream. *)
+Theorem gen_biguint_words n ws rest : 0 <= n -> words ws -> words rest -> chunk_ok n ws ->
+  gen_biguint n (ws ++ rest) = Ret (enc (cand n ws), rest) /\ 0 <= cand n ws < 2 ^ n.
+Proof.
+  intros Hn Hw Hr Hc. split; [|apply cand_bound; auto].
+  rewrite gen_biguint_spec by (auto; apply words_app; auto).
+  rewrite spec_gen_biguint_app by auto. reflexivity.
+Qed.
+
+Theorem gen_bigint_first n red acc w rest : 0 <= n ->
+  Forall (redraw n) red -> chunk_ok n acc -> words (concat red ++ acc ++ w :: rest) ->
+  (cand n acc <> 0 \/ Z.testbit w 31 = false) ->
+  gen_bigint n (concat red ++ acc ++ w :: rest)
+  = Ret (ienc (if Z.testbit w 31 then cand n acc else - cand n acc), rest).
+Proof.
+  intros Hn Hred Hacc Hw Hok. rewrite gen_bigint_spec by auto.
+  rewrite spec_gen_bigint_first by auto. reflexivity.
+Qed.
